@@ -30,6 +30,9 @@ def jobs(tier):
     js = [("e1", {"name": k, "registry": "contracts.tis_wf", "key": k, "clause": cl, "cost": cost, "parallel": 10 if cost > 20 else 4}) for k, cl, cost in FUNCS]
     js.append(("py", {"name": "lemma:reversal_symmetric", "module": "props.C10", "fn": "lemma_reversal"}))
     js.append(("py", {"name": "native_crosscheck", "module": "props.C10", "fn": "native_crosscheck"}))
+    if tier != "quick":
+        # L1, L2, L5 of the lemma library (Lean 4 + Mathlib, lean/Lemmas.lean)
+        js.append(("py", {"name": "lean_lemmas", "module": "vf.lemmas", "fn": "run_lean", "theorems": ["card_interior", "card_filter_mirror", "uniform_interval_probability"]}))
     return js
 
 
